@@ -362,7 +362,7 @@ def judge(bench, res):
             elif r[0] != "raised":
                 viol.append(("operation-after-release-succeeds", name, "%s after both CLOSEs %r" % (name, r)))
     if res.outcome == "deadlock":
-        classes.add("deadlock(blocked recv/send; not judged here)")
+        classes.add("deadlock(blocked recv/send/request; not judged here)")
     elif res.outcome == "budget":
         viol.append(("no-termination", "step-budget", "waits=%r" % (res.waits,)))
     elif res.outcome != "ok":
